@@ -51,8 +51,8 @@ pub fn main_campaign() -> SimCampaign {
             avoid: avoid_all(),
             ..Flags::default()
         },
-        quick: 10_000,
-        thorough: 200_000,
+        quick: 25000,
+        thorough: 500000,
         nontrivial,
         probes: vec![],
         shape: None,
